@@ -176,7 +176,8 @@ def parseOutcomes (s : String) : Option (List Outcome) :=
 
 /-- the monitor on the answers after a mutating operation (shared by plain, gated and storm lines) -/
 def checkAnswers (r : Report) (sec line : Nat) (hash opS : String) (op : Op) (probes : List Node)
-    (m : SMap) (wasMember isMember collBefore collAfter : Bool) (prev g f : List Outcome) : Report := Id.run do
+    (m : SMap) (wasMember isMember collBefore collAfter : Bool) (prev g f : List Outcome)
+    (alone : List Bool := []) : Report := Id.run do
   let mut r := r
   for (k, o) in probes.zip g do
     if o == .panic then
@@ -193,7 +194,17 @@ def checkAnswers (r : Report) (sec line : Nat) (hash opS : String) (op : Op) (pr
       if !disruptOk op.repr wasMember isMember o o' then
         r := r.violation sec line s!"disruption: Get {showOutcome (.node k)} moved {showOutcome o} -> {showOutcome o'} by [{opS}]"
   else
-    r := r.addCover s!"disruption-skipped-collision-{hash}"
+    -- a ring with colliding virtual nodes: minimal disruption still holds for every probe served by an unshared
+    -- virtual node before or after the operation (`monitor_sound_disruption_local`)
+    r := r.addCover s!"disruption-local-collision-{hash}"
+    for (k, o, o', a) in probes.zip (prev.zip (g.zip alone)) do
+      if a then
+        r := r.addCover "disruption-checked-local"
+        if o != o' then r := r.addCover "probe-moved-local"
+        if !disruptOk op.repr wasMember isMember o o' then
+          r := r.violation sec line s!"disruption: Get {showOutcome (.node k)} moved {showOutcome o} -> {showOutcome o'} by [{opS}] (ring with collisions; this key is served by an unshared virtual node)"
+      else
+        r := r.addCover "disruption-skipped-probe-on-shared-virtual-node"
   if g.any (fun o => match o with | .node _ => true | _ => false) then pure () else r := r.addCover "all-none"
   return r
 
@@ -461,7 +472,8 @@ def runSection (r : Report) (sec : Section) : Report := Id.run do
           if g.length ≠ probes.length ∨ f.length ≠ probes.length then
             r := r.mismatch sec.idx l.idx "bad-obs" "probe count"
           else
-            r := checkAnswers r sec.idx l.idx hash opS op probes m wasMember isMember collBefore collAfter prev g f
+            let alone := if collBefore && collAfter then [] else probes.map fun p => landsAlone H sPre s p
+            r := checkAnswers r sec.idx l.idx hash opS op probes m wasMember isMember collBefore collAfter prev g f alone
             prev := g
         | _, _ => r := r.mismatch sec.idx l.idx "bad-obs" (joinSp l.obs)
   return r
